@@ -246,4 +246,19 @@ PROPS = {
         "thorough": {"runs": [{"test": "^TestC13$", "shards": 12, "checks": 2000, "timeout": 3400},
                               {"test": "^TestC13Wrap$", "shards": 4, "checks": 500, "timeout": 3400}]},
     },
+    "C17": {
+        "title": "Disconnects and bans are enforced at the door",
+        "level": "exploration",
+        "rule": "rapid state machine in fake time: connect (handshake + login pipelined in one write) from one of 7 addresses incl. near-misses "
+                "(10.0.0.2 / 10.0.0.20 / 110.0.0.2 / 10.0.0.200), administrator kick with option none / temporary / permanent, advance the fake "
+                "clock by {999 ms, 1 s, 61 s, 29 min, 29 min 58 s, 2 h}, direct ban-list add with expiry now + {-1 h, -1 s, -1 ns, 0, +1 ns, +1 s, "
+                "+3 s, +30 min} or permanent, restart (fresh stores and server from the files); model = map address -> permanent | expiry, "
+                "evaluated at the fake connection instant (exact, no margins); oracle: kicked connection closed after one second and every other "
+                "client told (302); a connection is refused (handshake reply + exactly one server message + close, login not processed, not in "
+                "the user list, nobody notified) iff the model says banned, otherwise it logs in; ban file reloaded by a fresh BanFile == model; "
+                "non-trivial = a reconnect from a banned address, a reconnect after expiry, or a restart with >= 1 ban; distinct = hash(history)",
+        "assumptions": ["testing/synctest fake clock: time.Now() in mobius and in the model are the same instant"],
+        "quick": {"runs": [{"test": "^TestC17$", "shards": 16, "checks": 100, "timeout": 600}]},
+        "thorough": {"runs": [{"test": "^TestC17$", "shards": 16, "checks": 2500, "timeout": 3400}]},
+    },
 }
